@@ -1,10 +1,16 @@
-(* Cache layer under a heap variant whose two defect switches are off (the repaired heap): the
-   model's answers and callback logs equal the reference LRU's (S2) on every history. *)
+(* Cache layer against the reference LRU (S2): the model's answers and callback logs equal the
+   reference's on every history
+   - for a heap variant whose two defect switches are off (the repaired heap): unconditionally;
+   - for a variant whose pop never sifts up (the pinned tree, known finding F2): on every history
+     none of whose calls starts a heapq.Remove that would need a sift-up ([run_safe], the exact
+     condition under which every call keeps the heap a heap; CacheHeapGuard.v).
+   No assumption on the size function (negative sizes included) is needed for this. *)
 From Coq Require Import ZArith List Bool Lia Permutation Sorted.
 Import ListNotations.
 From Mds Require Import Gen.CacheIdx Gen.CacheLru Gen.HeapqIdx Heapq.HeapqModel Heapq.HeapqSpec Heapq.HeapqArray
-  Heapq.HeapqProofs Heapq.HeapqHeap Heapq.HeapqRepaired.
-From Mds Require Import Cache.CacheSpec Cache.CacheModel Cache.CacheFacts Cache.CacheLruProofs Cache.CacheS1Proofs Cache.CacheHeapFacts.
+  Heapq.HeapqProofs Heapq.HeapqHeap Heapq.HeapqHist Heapq.HeapqOrder Heapq.HeapqRepaired.
+From Mds Require Import Cache.CacheSpec Cache.CacheModel Cache.CacheFacts Cache.CacheLruProofs Cache.CacheS1Proofs Cache.CacheHeapFacts
+  Cache.CacheHeapGuard.
 Local Open Scope Z_scope.
 
 Section S2.
@@ -14,12 +20,21 @@ Hypothesis keqb_spec : forall a b, keqb a b = true <-> a = b.
 Variable kzero : K.
 Variable vzero : V.
 Variable sizeOf : V -> Z.
-Hypothesis size_nonneg : forall v, 0 <= sizeOf v.
 Variable lim : Z.
 Hypothesis lim_pos : 0 < lim.
 Variable hv : variant.
-Hypothesis Hv1 : parent_halves hv = false.
-Hypothesis Hv2 : pop_no_siftup hv = false.
+
+(* both defect switches off *)
+Definition sound_heap : Prop := parent_halves hv = false /\ pop_no_siftup hv = false.
+(* what makes heapq.Remove(pos) keep heap order: the heap sifts up, or it does not and none is needed *)
+Definition rm_ok (d : list (prio K V)) (pos : Z) : Prop :=
+  sound_heap \/ (pop_no_siftup hv = true /\ rm_safe K V d pos = true).
+Definition key_ok (s : lru K V) (k : K) : Prop :=
+  forall pos, map_get K keqb (present s) k = Some pos -> rm_ok (data (access s)) pos.
+Definition op_ok (c : cache K V) (o : op K V) : Prop :=
+  sound_heap \/ (pop_no_siftup hv = true /\ op_safe K V keqb sizeOf c o = true).
+Definition run_ok (c : cache K V) (ops : list (op K V)) : Prop :=
+  sound_heap \/ (pop_no_siftup hv = true /\ run_safe K V keqb kzero vzero sizeOf hv c ops = true).
 
 Notation prio := (prio K V).
 Notation lru := (lru K V).
@@ -72,33 +87,66 @@ Lemma rord_perm s l : rord s l -> Permutation l (ents (data (access s))).
 Proof. intros (L & P & _ & ->). exact (ents_perm K V _ _ P). Qed.
 
 (* ---- heap order is kept by the store operations ---- *)
-Lemma hok_add (q : queue prio) x q' m pos :
-  qcmp q = cmpp -> heap_ok prio cmpp (data q) -> Add prio hv q x = Ok (q', m, pos) ->
-  qcmp q' = cmpp /\ heap_ok prio cmpp (data q').
+Lemma cmpp_max (d : list prio) x :
+  (forall b, In b d -> lastAccess b <= lastAccess x) -> forall b, In b (d ++ [x]) -> cmpp b x <= 0.
 Proof.
-  intros Hc Hh. unfold Add. destruct (get (data q ++ [x]) (len (data q))) as [x'|]; [|discriminate].
-  change (0 <? add_ncalls_pushUp) with true. cbv iota.
-  destruct (push_up prio hv (qcmp q) (S (length (data q ++ [x]))) (data q ++ [x]) (len (data q))) as [[[l' m'] r]| |] eqn:HP; cbn [bind]; try discriminate.
-  intro H. injection H as <- _ _. cbn [qcmp data]. split; [exact Hc|].
-  rewrite Hc in HP. exact (add_heap prio hv Hv1 cmpp cmpp_tp _ _ _ _ _ Hh HP).
+  intros H b Hb. apply cmpp_le. apply in_app_or in Hb. destruct Hb as [Hb|[<-|[]]]; [apply H; exact Hb|lia].
+Qed.
+
+(* Add of an element no held element is younger than: for EVERY variant pushUp stops at once (so
+   the parent index of known finding F1 is never used to move anything), the element is appended *)
+Lemma hok_add (q : queue prio) x q' m pos :
+  qcmp q = cmpp -> heap_ok prio cmpp (data q) -> (forall b, In b (data q) -> lastAccess b <= lastAccess x) ->
+  Add prio hv q x = Ok (q', m, pos) ->
+  qcmp q' = cmpp /\ heap_ok prio cmpp (data q') /\ data q' = data q ++ [x].
+Proof.
+  intros Hc Hh Hmax. unfold Add. rewrite (get_app_last prio (data q) x).
+  change (0 <? add_ncalls_pushUp) with true. cbv iota. rewrite Hc.
+  rewrite (push_up_max_noop prio hv cmpp cmpp_tp _ (data q ++ [x]) (len (data q)) x (get_app_last prio _ _) (cmpp_max _ _ Hmax)).
+  cbn [bind]. intro H. injection H as <- _ _. cbn [qcmp data]. split; [reflexivity|]. split; [|reflexivity].
+  apply (heap_ok_snoc_max prio cmpp); [exact Hh|]. intros b Hb. apply cmpp_le. apply Hmax. exact Hb.
+Qed.
+
+Lemma rm_safe_needed (d : list prio) pos : rm_safe K V d pos = true -> no_siftup_needed prio cmpp d pos.
+Proof.
+  unfold rm_safe, no_siftup_needed. intro H. apply orb_true_iff in H. destruct H as [H|H].
+  - apply orb_true_iff in H. destruct H as [H|H]; [left; apply Z.eqb_eq; exact H|right; left; apply Z.leb_le; exact H].
+  - right. right. destruct (get d (len d - 1)) as [last|]; [|discriminate].
+    destruct (get d ((pos - 1) / 2)) as [par|]; [|discriminate].
+    exists last, par. split; [reflexivity|]. split; [reflexivity|]. apply cmpp_le. apply Z.leb_le. exact H.
 Qed.
 
 Lemma hok_pop_at (l : list prio) i l' m out :
-  heap_ok prio cmpp l -> 0 <= i < len l -> pop prio hv cmpp l i = Ok (l', m, out) -> heap_ok prio cmpp l'.
-Proof. intros Hh Hi HP. exact (pop_heap prio hv Hv1 cmpp cmpp_tp Hv2 _ _ _ _ _ Hh Hi HP). Qed.
+  heap_ok prio cmpp l -> 0 <= i < len l -> rm_ok l i -> pop prio hv cmpp l i = Ok (l', m, out) -> heap_ok prio cmpp l'.
+Proof.
+  intros Hh Hi [[Hv1 Hv2]|[Hv Hs]] HP.
+  - exact (pop_heap prio hv Hv1 cmpp cmpp_tp Hv2 _ _ _ _ _ Hh Hi HP).
+  - exact (pop_heap_no_siftup prio hv cmpp cmpp_tp _ _ _ _ _ Hv Hh Hi (rm_safe_needed _ _ Hs) HP).
+Qed.
 
 Lemma hok_remove (q : queue prio) n q' m r :
-  qcmp q = cmpp -> heap_ok prio cmpp (data q) -> Remove prio hv q n = Ok (q', m, r) ->
+  qcmp q = cmpp -> heap_ok prio cmpp (data q) -> rm_ok (data q) n -> Remove prio hv q n = Ok (q', m, r) ->
   qcmp q' = cmpp /\ heap_ok prio cmpp (data q').
 Proof.
-  intros Hc Hh. unfold Remove, Remove_negative, Remove_beyond.
+  intros Hc Hh Hok. unfold Remove, Remove_negative, Remove_beyond.
   destruct (Z.ltb_spec n 0). { intro E. injection E as <- _ _. auto. }
   rewrite Z.geb_leb. destruct (Z.leb_spec (len (data q)) n). { intro E. injection E as <- _ _. auto. }
   destruct (pop prio hv (qcmp q) (data q) n) as [[[l' m'] out]| |] eqn:HP; cbn [bind]; try discriminate.
   intro E. injection E as <- _ _. cbn [qcmp data]. split; [exact Hc|]. rewrite Hc in HP.
-  apply (hok_pop_at (data q) n l' m' out Hh); [lia|exact HP].
+  apply (hok_pop_at (data q) n l' m' out Hh); [lia|exact Hok|exact HP].
 Qed.
 
+Lemma Remove_incl (q : queue prio) n q' m r : Remove prio hv q n = Ok (q', m, r) -> incl (data q') (data q).
+Proof.
+  unfold Remove, Remove_negative, Remove_beyond.
+  destruct (Z.ltb_spec n 0). { intro E. injection E as <- _ _. apply incl_refl. }
+  rewrite Z.geb_leb. destruct (Z.leb_spec (len (data q)) n). { intro E. injection E as <- _ _. apply incl_refl. }
+  destruct (pop_total prio (qcmp q) hv (data q) n) as (l' & m' & out & HP & _ & P & _); [lia|].
+  rewrite HP. cbn [bind]. intro E. injection E as <- _ _. cbn [data]. intros b Hb.
+  apply (Permutation_in _ (Permutation_sym P)). right. exact Hb.
+Qed.
+
+(* removing the root keeps heap order for every variant *)
 Lemma hok_Pop (q : queue prio) q' m r :
   qcmp q = cmpp -> heap_ok prio cmpp (data q) -> Pop prio hv q = Ok (q', m, r) ->
   qcmp q' = cmpp /\ heap_ok prio cmpp (data q').
@@ -107,14 +155,15 @@ Proof.
   destruct (Z.eqb_spec (len (data q)) 0). { intro E. injection E as <- _ _. auto. }
   destruct (pop prio hv (qcmp q) (data q) 0) as [[[l' m'] out]| |] eqn:HP; cbn [bind]; try discriminate.
   intro E. injection E as <- _ _. cbn [qcmp data]. split; [exact Hc|]. rewrite Hc in HP.
-  apply (hok_pop_at (data q) 0 l' m' out Hh); [pose proof (len_nonneg prio (data q)); lia|exact HP].
+  apply (pop_root_heap prio hv cmpp cmpp_tp (data q) l' m' out Hh); [pose proof (len_nonneg prio (data q)); lia|exact HP].
 Qed.
 
-Lemma hok_lru_remove s k s' : hok s -> lru_remove s k = COk s' -> hok s'.
+Lemma hok_lru_remove s k s' : hok s -> key_ok s k -> lru_remove s k = COk s' -> hok s'.
 Proof.
-  intros [Hc Hh]. unfold CacheModel.lru_remove. destruct (CacheModel.map_get K keqb (present s) k); [|intro H; injection H as <-; split; assumption].
+  intros [Hc Hh] Hok. unfold CacheModel.lru_remove.
+  destruct (CacheModel.map_get K keqb (present s) k) as [z|] eqn:Hg; [|intro H; injection H as <-; split; assumption].
   destruct (Remove prio hv (access s) z) as [[[q m] r]| |] eqn:HR; cbn [lift cbind]; try discriminate.
-  destruct (hok_remove _ _ _ _ _ Hc Hh HR) as [A B].
+  destruct (hok_remove _ _ _ _ _ Hc Hh (Hok z Hg) HR) as [A B].
   destruct r; try discriminate; intro H; injection H as <-; split; assumption.
 Qed.
 
@@ -126,21 +175,48 @@ Proof.
   destruct r; try discriminate. intro H. injection H as <- _. split; assumption.
 Qed.
 
-Lemma hok_lru_store s k v s' : hok s -> lru_store s k v = COk s' -> hok s'.
+(* the most recently used entry sits in the last slot of the heap array *)
+Definition top_last (s : lru) : Prop :=
+  forall last, get (data (access s)) (len (data (access s)) - 1) = Some last ->
+  forall e, In e (data (access s)) -> lastAccess e <= lastAccess last.
+
+Lemma top_last_snoc (s : lru) d x :
+  data (access s) = d ++ [x] -> (forall b, In b d -> lastAccess b <= lastAccess x) -> top_last s.
 Proof.
-  intros [Hc Hh]. unfold CacheModel.lru_store. destruct (CacheModel.map_get K keqb (present s) k); [discriminate|].
-  destruct (Add prio hv (access s) _) as [[[q m] r]| |] eqn:HR; cbn [lift cbind]; try discriminate.
-  destruct (hok_add _ _ _ _ _ Hc Hh HR) as [A B]. intro H. injection H as <-. split; assumption.
+  intros E Hmax last Hl e He. rewrite E in Hl, He.
+  assert (Hn : len (d ++ [x]) - 1 = len d) by (rewrite len_app; unfold len; cbn [length]; lia).
+  rewrite Hn in Hl. rewrite get_app_last in Hl. inversion Hl; subst last.
+  apply in_app_or in He. destruct He as [He|[<-|[]]]; [apply Hmax; exact He|lia].
 Qed.
 
-Lemma hok_lru_access s k s' r : hok s -> lru_access s k = COk (s', r) -> hok s'.
+Lemma hok_lru_store s k v s' : hok s -> fresh s -> lru_store s k v = COk s' -> hok s' /\ top_last s'.
 Proof.
-  intros [Hc Hh]. unfold CacheModel.lru_access. destruct (CacheModel.map_get K keqb (present s) k); [|intro H; injection H as <- _; split; assumption].
+  intros [Hc Hh] FR. unfold CacheModel.lru_store. destruct (CacheModel.map_get K keqb (present s) k); [discriminate|].
+  destruct (Add prio hv (access s) _) as [[[q m] r]| |] eqn:HR; cbn [lift cbind]; try discriminate.
+  assert (Hmax : forall b, In b (data (access s)) ->
+            lastAccess b <= lastAccess {| lastAccess := store_clock (clock s); key := k; value := v |}).
+  { intros b Hb. cbn [lastAccess]. unfold store_clock. specialize (FR b Hb). lia. }
+  destruct (hok_add _ _ _ _ _ Hc Hh Hmax HR) as (A & B & C). intro H. injection H as <-.
+  split; [split; assumption|]. eapply top_last_snoc; [cbn [access]; exact C|exact Hmax].
+Qed.
+
+Lemma hok_lru_access s k s' r : hok s -> fresh s -> key_ok s k -> lru_access s k = COk (s', r) ->
+  hok s' /\ (snd r = true -> top_last s').
+Proof.
+  intros [Hc Hh] FR Hok. unfold CacheModel.lru_access.
+  destruct (CacheModel.map_get K keqb (present s) k) as [z|] eqn:Hg;
+    [|intro H; injection H as <- <-; split; [split; assumption|discriminate]].
   destruct (Remove prio hv (access s) z) as [[[q1 m1] r1]| |] eqn:HR; cbn [lift cbind]; try discriminate.
-  destruct (hok_remove _ _ _ _ _ Hc Hh HR) as [A B].
+  destruct (hok_remove _ _ _ _ _ Hc Hh (Hok z Hg) HR) as [A B].
+  pose proof (Remove_incl _ _ _ _ _ HR) as Hincl.
   destruct r1; try discriminate;
-    (destruct (Add prio hv q1 _) as [[[q2 m2] r2]| |] eqn:HA; cbn [lift cbind]; try discriminate;
-     destruct (hok_add _ _ _ _ _ A B HA) as [A2 B2]; intro H; injection H as <- _; split; assumption).
+    (match goal with |- context [Add prio hv q1 ?x] =>
+       destruct (Add prio hv q1 x) as [[[q2 m2] r2]| |] eqn:HA; cbn [lift cbind]; try discriminate;
+       assert (Hmax : forall b, In b (data q1) -> lastAccess b <= lastAccess x)
+         by (intros b Hb; cbn [lastAccess]; unfold access_stamp, access_clock; specialize (FR b (Hincl b Hb)); lia);
+       destruct (hok_add _ _ _ _ _ A B Hmax HA) as (A2 & B2 & C2); intro H; injection H as <- _;
+       split; [split; assumption|intros _; eapply top_last_snoc; [cbn [access]; exact C2|exact Hmax]]
+     end).
 Qed.
 
 (* ---- sorted lists of prio ---- *)
@@ -225,16 +301,16 @@ Proof.
     apply Permutation_cons_inv with (a := e). rewrite P. exact P1.
 Qed.
 
-Lemma remove2 s l k v : O2 s l -> find l k = Some v ->
+Lemma remove2 s l k v : O2 s l -> key_ok s k -> find l k = Some v ->
   exists s', lru_remove s k = COk s' /\ O2 s' (del l k) /\ clock s' = clock s.
 Proof.
-  intros (LI & HO & FR & R) F. rewrite (find_l2 s l k LI R) in F. destruct R as (L & P & SS & ->).
+  intros (LI & HO & FR & R) Hok F. rewrite (find_l2 s l k LI R) in F. destruct R as (L & P & SS & ->).
   destruct (remove_spec K V keqb keqb_spec hv HFr s k v LI F) as (s' & e & HR & LI' & Hk & Hv & P1 & Hck & Hq).
   assert (He_in : In e L).
   { apply (Permutation_in _ (Permutation_sym P)). apply (Permutation_in _ (Permutation_sym P1)). left. reflexivity. }
   apply in_split in He_in. destruct He_in as (L1 & L2 & ->).
   exists s'. split; [exact HR|]. split; [|exact Hck].
-  split; [exact LI'|]. split; [exact (hok_lru_remove _ _ _ HO HR)|]. split.
+  split; [exact LI'|]. split; [exact (hok_lru_remove _ _ _ HO Hok HR)|]. split.
   - intros e' He'. rewrite Hck. apply FR. apply (Permutation_in _ (Permutation_sym P1)). right. exact He'.
   - exists (L1 ++ L2). split; [exact (perm_without _ _ _ _ _ P P1)|]. split; [exact (ss_remove _ _ _ SS)|].
     rewrite <- Hk. apply del_ents_mid.
@@ -244,14 +320,15 @@ Proof.
 Qed.
 
 Lemma store2 s l k v : O2 s l -> find l k = None ->
-  exists s', lru_store s k v = COk s' /\ O2 s' (l ++ [(k, v)]) /\ clock s' = clock s + 1.
+  exists s', lru_store s k v = COk s' /\ O2 s' (l ++ [(k, v)]) /\ clock s' = clock s + 1 /\ top_last s'.
 Proof.
   intros (LI & HO & FR & R) F. rewrite (find_l2 s l k LI R) in F. destruct R as (L & P & SS & ->).
   apply (find_None_notin K V keqb keqb_spec) in F. rewrite keys_ents in F.
   destruct (store_spec K V keqb keqb_spec hv HFa s k v LI F) as (s' & HS & LI' & P1 & Hck & Hq).
   set (x := {| lastAccess := clock s + 1; key := k; value := v |}) in *.
-  exists s'. split; [exact HS|]. split; [|exact Hck].
-  split; [exact LI'|]. split; [exact (hok_lru_store _ _ _ _ HO HS)|]. split.
+  destruct (hok_lru_store _ _ _ _ HO FR HS) as [HO' TL'].
+  exists s'. split; [exact HS|]. split; [|split; [exact Hck|exact TL']].
+  split; [exact LI'|]. split; [exact HO'|]. split.
   - intros e' He'. rewrite Hck. apply (Permutation_in _ P1) in He'. destruct He' as [<-|He']; [cbn; lia|].
     specialize (FR _ He'). lia.
   - exists (L ++ [x]). split; [|split].
@@ -261,18 +338,19 @@ Proof.
     + unfold ents. rewrite map_app. reflexivity.
 Qed.
 
-Lemma access2 s l k v : O2 s l -> find l k = Some v ->
-  exists s', lru_access s k = COk (s', (v, true)) /\ O2 s' (del l k ++ [(k, v)]) /\ clock s' = clock s + 1.
+Lemma access2 s l k v : O2 s l -> key_ok s k -> find l k = Some v ->
+  exists s', lru_access s k = COk (s', (v, true)) /\ O2 s' (del l k ++ [(k, v)]) /\ clock s' = clock s + 1 /\ top_last s'.
 Proof.
-  intros (LI & HO & FR & R) F. rewrite (find_l2 s l k LI R) in F. destruct R as (L & P & SS & ->).
+  intros (LI & HO & FR & R) Hok F. rewrite (find_l2 s l k LI R) in F. destruct R as (L & P & SS & ->).
   destruct (access_spec K V keqb keqb_spec kzero vzero hv HFa HFr s k v LI F) as (s' & e & d1 & HA & LI' & Hk & Hv & P1 & P2 & Hck & Hq).
   set (x := {| lastAccess := clock s + 1; key := k; value := v |}) in *.
   assert (He_in : In e L).
   { apply (Permutation_in _ (Permutation_sym P)). apply (Permutation_in _ (Permutation_sym P1)). left. reflexivity. }
   apply in_split in He_in. destruct He_in as (L1 & L2 & ->).
   pose proof (perm_without _ _ _ _ _ P P1) as P12.
-  exists s'. split; [exact HA|]. split; [|exact Hck].
-  split; [exact LI'|]. split; [exact (hok_lru_access _ _ _ _ HO HA)|]. split.
+  destruct (hok_lru_access _ _ _ _ HO FR Hok HA) as [HO' TL'].
+  exists s'. split; [exact HA|]. split; [|split; [exact Hck|exact (TL' eq_refl)]].
+  split; [exact LI'|]. split; [exact HO'|]. split.
   - intros e' He'. rewrite Hck. apply (Permutation_in _ P2) in He'. destruct He' as [<-|He']; [cbn; lia|].
     assert (In e' (data (access s))) by (apply (Permutation_in _ (Permutation_sym P1)); right; exact He').
     specialize (FR _ H). lia.
@@ -374,19 +452,50 @@ Local Arguments CacheModel.put_evict_loop : simpl never.
 Local Arguments CacheModel.clear_loop : simpl never.
 
 Definition R2 (c : cache) (l : entries K V) : Prop :=
-  O2 (store c) l /\ csize c = total l /\ count c = Z.of_nat (length l) /\ csize c <= lim /\ limit c = lim.
+  O2 (store c) l /\ csize c = total l /\ count c = Z.of_nat (length l) /\ limit c = lim.
 
-Lemma step2 (c : cache) l o :
-  R2 c l -> exists c', step c o = COk (c', snd (s2_step l o)) /\ R2 c' (fst (s2_step l o)).
+Notation settles := (settles K V keqb sizeOf lim).
+Notation hits := (hits K V keqb sizeOf lim).
+Notation settled := (settled K V keqb vzero sizeOf lim).
+Notation op_safe := (op_safe K V keqb sizeOf).
+Notation run_safe := (run_safe K V keqb kzero vzero sizeOf hv).
+
+Lemma O2_nil_data s : O2 s [] -> data (access s) = [].
 Proof.
-  intros (HO & Hsz & Hcnt & Hle & Hlim).
-  assert (R : R2 c l) by exact (conj HO (conj Hsz (conj Hcnt (conj Hle Hlim)))).
+  intros (_ & _ & _ & (L & P & _ & E)). destruct L; [|discriminate]. apply Permutation_nil in P. exact P.
+Qed.
+
+Lemma top_last_nil s : data (access s) = [] -> top_last s.
+Proof. intros E last Hl. rewrite E in Hl. discriminate. Qed.
+
+(* what op_ok says for the key a call touches *)
+Lemma op_ok_key c o k : op_ok c o ->
+  (o = OGet k \/ o = ORemove k \/ exists v, o = OPut k v /\ put_refuse (sizeOf v) (limit c) = false) -> key_ok (store c) k.
+Proof.
+  intros [S|[Hv Hs]] Ho pos Hg; [left; exact S|right; split; [exact Hv|]].
+  unfold CacheModel.op_safe in Hs.
+  destruct Ho as [->|[->|(v & -> & Hr)]]; [| |rewrite Hr in Hs]; rewrite Hg in Hs; exact Hs.
+Qed.
+
+(* one call: the model's result and log are the reference's; the relation is kept; a settling call
+   leaves the most recently used entry in the last slot, a call that changes nothing leaves the store *)
+Lemma step2 (c : cache) l o :
+  R2 c l -> op_ok c o ->
+  exists c', step c o = COk (c', snd (s2_step l o)) /\ R2 c' (fst (s2_step l o)) /\
+             (settles l o = Some true -> top_last (store c')) /\ (settles l o = None -> store c' = store c).
+Proof.
+  intros (HO & Hsz & Hcnt & Hlim) Hok.
+  assert (R : R2 c l) by exact (conj HO (conj Hsz (conj Hcnt Hlim))).
   assert (ND : NoDup (keys l)) by (destruct HO as (LI & _ & _ & RO); exact (nodup_l2 _ _ LI RO)).
-  destruct o as [k v|k|k|k| | |]; cbn [CacheModel.step CacheSpec.s2_step].
+  destruct o as [k v|k|k|k| | |]; cbn [CacheModel.step CacheSpec.s2_step CacheSpec.settles].
   - (* Put *)
-    unfold cache_put, put_refuse. rewrite Hlim.
-    destruct (sizeOf v >? lim) eqn:G.
-    { exists c. cbn. split; [reflexivity|exact R]. }
+    unfold cache_put. rewrite Hlim.
+    assert (Hkey : put_refuse (sizeOf v) lim = false -> key_ok (store c) k).
+    { intro Hr. apply (op_ok_key c (OPut k v) k Hok). right. right. exists v. rewrite Hlim. auto. }
+    revert Hkey. unfold put_refuse.
+    destruct (sizeOf v >? lim) eqn:G; intro Hkey.
+    { exists c. cbn. split; [reflexivity|]. split; [exact R|]. split; [discriminate|reflexivity]. }
+    specialize (Hkey eq_refl).
     apply gtb_false in G. rewrite (check2 _ _ k HO).
     assert (Tail : forall (s1 : lru) size1 cnt1 log1 l1,
       O2 s1 l1 -> find l1 k = None -> cnt1 = Z.of_nat (length l1) -> size1 = total l1 ->
@@ -396,71 +505,89 @@ Proof.
          cdo s3 <- lru_store s2 k v;
          COk ({| store := s3; csize := put_final_size newSize2; count := put_final_count cnt2; limit := lim |}, true, log2))
         = COk (c', true, log1 ++ snd (make_room l1 (sizeOf v))) /\
-        R2 c' (fst (make_room l1 (sizeOf v)) ++ [(k, v)])).
+        R2 c' (fst (make_room l1 (sizeOf v)) ++ [(k, v)]) /\ top_last (store c')).
     { intros s1 size1 cnt1 log1 l1 HO1 F1 Hc1 Hs1.
       assert (Hlen : length (data (access s1)) = length l1).
       { destruct HO1 as (_ & _ & _ & RO). rewrite (Permutation_length (rord_perm _ _ RO)). unfold ents. rewrite map_length. reflexivity. }
       destruct (put_loop2 (S (length (data (access s1)))) s1 cnt1 (put_newsize_init size1 (sizeOf v)) log1 l1 (sizeOf v) HO1)
         as (s2 & l2 & ev & HM & HL & HO2 & Hfit & Hfind & _); try assumption; try lia.
       { unfold put_newsize_init. lia. }
-      destruct (store2 s2 l2 k v HO2 (Hfind k F1)) as (s3 & HSt & HO3 & _).
+      destruct (store2 s2 l2 k v HO2 (Hfind k F1)) as (s3 & HSt & HO3 & _ & TL3).
       eexists. rewrite HL. cbn [cbind]. rewrite HSt. cbn [cbind]. rewrite HM. cbn [fst snd].
-      split; [reflexivity|]. unfold R2. cbn [store csize count limit].
+      split; [reflexivity|]. split; [|exact TL3]. unfold R2. cbn [store csize count limit].
       split; [exact HO3|]. unfold put_final_size, put_final_count.
       rewrite (total_app K V sizeOf). cbn [CacheSpec.total]. rewrite app_length. cbn [length].
       repeat split; lia. }
     destruct (find l k) as [old|] eqn:F; cbn [cbind].
-    + destruct (remove2 _ _ k old HO F) as (s1 & HR & HO1 & _). rewrite HR. cbn [cbind].
+    + destruct (remove2 _ _ k old HO Hkey F) as (s1 & HR & HO1 & _). rewrite HR. cbn [cbind].
       destruct (Tail s1 (put_replace_size (csize c) (sizeOf old)) (put_replace_count (count c))
-                     (fires K V put_ncalls_onEvict 1 (k, old)) (del l k) HO1) as (c' & HT & HR2).
+                     (fires K V put_ncalls_onEvict 1 (k, old)) (del l k) HO1) as (c' & HT & HR2 & TL).
       * exact (find_del_same l k old ND F).
       * unfold put_replace_count. rewrite (length_del l k old F) in Hcnt. lia.
       * unfold put_replace_size. rewrite (total_del l k old F) in Hsz. lia.
       * exists c'. rewrite HT. cbn [cbind].
         destruct (make_room (del l k) (sizeOf v)) as [l2 ev2]. cbn [fst snd] in *.
-        split; [unfold fires, put_ncalls_onEvict; cbn; reflexivity|exact HR2].
-    + destruct (Tail (store c) (csize c) (count c) [] l HO F Hcnt Hsz) as (c' & HT & HR2).
+        split; [unfold fires, put_ncalls_onEvict; cbn; reflexivity|]. split; [exact HR2|]. split; [intros _; exact TL|discriminate].
+    + destruct (Tail (store c) (csize c) (count c) [] l HO F Hcnt Hsz) as (c' & HT & HR2 & TL).
       exists c'. rewrite HT. cbn [cbind app].
       destruct (make_room l (sizeOf v)) as [l2 ev2]. cbn [fst snd] in *.
-      split; [reflexivity|exact HR2].
+      split; [reflexivity|]. split; [exact HR2|]. split; [intros _; exact TL|discriminate].
   - (* Get *)
     unfold cache_get. destruct (find l k) as [v|] eqn:F.
-    + destruct (access2 _ _ k v HO F) as (s' & HA & HO' & _). rewrite HA. cbn [cbind fst snd].
-      eexists. split; [reflexivity|]. unfold R2. cbn [store csize count limit fst].
+    + assert (Hkey : key_ok (store c) k) by (apply (op_ok_key c (OGet k) k Hok); left; reflexivity).
+      destruct (access2 _ _ k v HO Hkey F) as (s' & HA & HO' & _ & TL). rewrite HA. cbn [cbind fst snd].
+      eexists. split; [reflexivity|]. split; [|split; [intros _; exact TL|discriminate]].
+      unfold R2. cbn [store csize count limit fst].
       split; [exact HO'|]. rewrite (total_app K V sizeOf). cbn [CacheSpec.total]. rewrite app_length. cbn [length].
       rewrite (total_del l k v F) in Hsz. rewrite (length_del l k v F) in Hcnt. repeat split; lia.
-    + rewrite (access2_absent _ _ k HO F). cbn [cbind fst snd]. eexists. split; [reflexivity|exact R].
+    + rewrite (access2_absent _ _ k HO F). cbn [cbind fst snd]. eexists. split; [reflexivity|].
+      split; [exact R|]. split; [discriminate|reflexivity].
   - (* Has *)
     unfold cache_has. rewrite (check2 _ _ k HO). cbn [cbind]. exists c. cbn [fst snd].
-    split; [destruct (find l k); reflexivity|exact R].
+    split; [destruct (find l k); reflexivity|]. split; [exact R|]. split; [discriminate|reflexivity].
   - (* Remove *)
     unfold cache_remove. rewrite (check2 _ _ k HO).
     destruct (find l k) as [old|] eqn:F; cbn [cbind].
-    + destruct (remove2 _ _ k old HO F) as (s1 & HR & HO1 & _). rewrite HR. cbn [cbind].
-      eexists. split; [unfold fires, remove_ncalls_onEvict; cbn; reflexivity|].
+    + assert (Hkey : key_ok (store c) k) by (apply (op_ok_key c (ORemove k) k Hok); right; left; reflexivity).
+      destruct (remove2 _ _ k old HO Hkey F) as (s1 & HR & HO1 & _). rewrite HR. cbn [cbind].
+      eexists. split; [unfold fires, remove_ncalls_onEvict; cbn; reflexivity|]. split; [|split; discriminate].
       unfold R2. cbn [store csize count limit fst]. split; [exact HO1|]. unfold remove_size, remove_count.
-      rewrite (total_del l k old F) in Hsz. rewrite (length_del l k old F) in Hcnt.
-      pose proof (total_nonneg K V sizeOf (del l k) size_nonneg). pose proof (size_nonneg old). repeat split; lia.
-    + exists c. split; [reflexivity|exact R].
+      rewrite (total_del l k old F) in Hsz. rewrite (length_del l k old F) in Hcnt. repeat split; lia.
+    + exists c. split; [reflexivity|]. split; [exact R|]. split; [discriminate|reflexivity].
   - (* Clear *)
     unfold cache_clear.
     assert (Hlen : length (data (access (store c))) = length l).
     { destruct HO as (_ & _ & _ & RO). rewrite (Permutation_length (rord_perm _ _ RO)). unfold ents. rewrite map_length. reflexivity. }
     destruct (clear_loop2 (S (length (data (access (store c))))) (store c) (csize c) (count c) [] l HO) as (s' & HL & HO' & _); try assumption; try lia.
     rewrite HL. cbn [cbind app]. unfold clear_inconsistent. cbn [Z.eqb negb orb].
-    eexists. split; [reflexivity|]. unfold R2. cbn [store csize count limit fst]. split; [exact HO'|]. cbn. repeat split; lia.
+    eexists. split; [reflexivity|]. split; [|split; [intros _; cbn [store]; exact (top_last_nil _ (O2_nil_data _ HO'))|discriminate]].
+    unfold R2. cbn [store csize count limit fst]. split; [exact HO'|]. cbn. repeat split; lia.
   - (* Len *)
-    exists c. split; [|exact R]. cbn. unfold cache_len, len_result. rewrite Hcnt. reflexivity.
+    exists c. split; [|split; [exact R|split; [discriminate|reflexivity]]]. cbn. unfold cache_len, len_result. rewrite Hcnt. reflexivity.
   - (* Size *)
-    exists c. split; [|exact R]. cbn. unfold cache_size, size_result. rewrite Hsz. reflexivity.
+    exists c. split; [|split; [exact R|split; [discriminate|reflexivity]]]. cbn. unfold cache_size, size_result. rewrite Hsz. reflexivity.
 Qed.
 
-Lemma run2 : forall ops (c : cache) l, R2 c l -> run c ops = map ok_event (s2_run l ops).
+Lemma run_ok_step c o ops c' rl : run_ok c (o :: ops) -> step c o = COk (c', rl) -> op_ok c o /\ run_ok c' ops.
 Proof.
-  induction ops as [|o ops IH]; intros c l R; [reflexivity|].
-  destruct (step2 c l o R) as (c' & HS & R').
+  intros [S|[Hv Hs]] HS; [split; left; exact S|].
+  cbn [CacheModel.run_safe] in Hs. rewrite HS in Hs. apply andb_prop in Hs. destruct Hs as [A B].
+  split; right; split; assumption.
+Qed.
+
+Lemma run_ok_head c o ops : run_ok c (o :: ops) -> op_ok c o.
+Proof.
+  intros [S|[Hv Hs]]; [left; exact S|]. cbn [CacheModel.run_safe] in Hs. apply andb_prop in Hs. destruct Hs as [A _].
+  right; split; assumption.
+Qed.
+
+Lemma run2 : forall ops (c : cache) l, R2 c l -> run_ok c ops -> run c ops = map ok_event (s2_run l ops).
+Proof.
+  induction ops as [|o ops IH]; intros c l R Hok; [reflexivity|].
+  destruct (step2 c l o R (run_ok_head _ _ _ Hok)) as (c' & HS & R' & _).
+  destruct (run_ok_step _ _ _ _ _ Hok HS) as [_ Hok'].
   cbn [CacheModel.run CacheSpec.s2_run]. rewrite HS.
-  destruct (s2_step l o) as [l' [r log]]. cbn [fst snd map ok_event] in *. rewrite (IH c' l' R'). reflexivity.
+  destruct (s2_step l o) as [l' [r log]]. cbn [fst snd map ok_event] in *. rewrite (IH c' l' R' Hok'). reflexivity.
 Qed.
 
 Lemma R2_new : R2 {| store := lru_new K V; csize := 0; count := 0; limit := lim |} [].
@@ -475,11 +602,117 @@ Proof.
   - exists []. split; [constructor|]. split; [constructor|reflexivity].
 Qed.
 
-Theorem refines_S2 ops :
+(* with both switches off: every history *)
+Theorem refines_S2 ops : sound_heap ->
   run_new K V keqb kzero vzero sizeOf hv lim ops = map ok_event (s2_run [] ops).
 Proof.
-  unfold run_new, cache_new, new_bad_limit. destruct (Z.leb_spec lim 0); [lia|].
-  apply run2. exact R2_new.
+  intro S. unfold run_new, cache_new, new_bad_limit. destruct (Z.leb_spec lim 0); [lia|].
+  apply run2; [exact R2_new|left; exact S].
+Qed.
+
+(* with a pop that never sifts up: every history that never starts a removal needing one *)
+Theorem refines_S2_safe ops : pop_no_siftup hv = true ->
+  run_new_safe K V keqb kzero vzero sizeOf hv lim ops = true ->
+  run_new K V keqb kzero vzero sizeOf hv lim ops = map ok_event (s2_run [] ops).
+Proof.
+  intros Hv. unfold run_new, run_new_safe, cache_new, new_bad_limit. destruct (Z.leb_spec lim 0); [lia|].
+  intro Hs. apply run2; [exact R2_new|right; split; assumption].
+Qed.
+
+(* ---- a condition on the history alone: [settled] (CacheSpec.v) implies [run_safe] ---- *)
+
+(* the offset recorded for a key lies inside the heap array *)
+Lemma present_range s k pos : linv s -> map_get K keqb (present s) k = Some pos -> 0 <= pos < len (data (access s)).
+Proof.
+  intros LI Hg. destruct (in_dec (keqb_dec K keqb keqb_spec) k (pkeys (data (access s)))) as [Hin|Hnin].
+  - destruct (lookup_in K V keqb s k LI Hin) as (pos' & e & Hg' & Hget & _).
+    assert (pos' = pos) by congruence. subst pos'. exact (CacheLruProofs.get_range _ _ _ _ Hget).
+  - rewrite (lookup_notin K V keqb s k LI Hnin) in Hg. discriminate.
+Qed.
+
+(* with the most recent entry in the last slot, no removal needs a sift-up *)
+Lemma rm_safe_top s pos : top_last s -> 0 <= pos < len (data (access s)) -> rm_safe K V (data (access s)) pos = true.
+Proof.
+  intros TL Hr. unfold rm_safe. set (d := data (access s)) in *.
+  destruct (Z.eqb_spec pos 0) as [|H0]; [reflexivity|].
+  destruct (Z.leb_spec (len d - 1) pos) as [|H1]; [reflexivity|]. cbn [orb].
+  destruct (get_some prio d (len d - 1)) as [last Hl]; [lia|].
+  destruct (parent_child pos) as [_ Hp]; [lia|].
+  destruct (get_some prio d ((pos - 1) / 2)) as [par Hpar]; [lia|].
+  rewrite Hl, Hpar. apply Z.leb_le. apply (TL last Hl). eapply HeapqArray.get_In. exact Hpar.
+Qed.
+
+(* a valid heap of at most 5 elements: the last element is a descendant of the parent of every
+   interior offset, so no removal needs a sift-up *)
+Lemma rm_safe_small (d : list prio) pos :
+  heap_ok prio cmpp d -> len d <= 5 -> 0 <= pos < len d -> rm_safe K V d pos = true.
+Proof.
+  intros Hh H5 Hr. unfold rm_safe.
+  destruct (Z.eqb_spec pos 0) as [|H0]; [reflexivity|].
+  destruct (Z.leb_spec (len d - 1) pos) as [|H1]; [reflexivity|]. cbn [orb].
+  destruct (get_some prio d (len d - 1)) as [last Hl]; [lia|].
+  assert (Hcase : (pos = 1 \/ pos = 2) \/ (pos = 3 /\ len d = 5)) by lia.
+  destruct Hcase as [Hc|[-> H5']].
+  - assert (E : (pos - 1) / 2 = 0) by (destruct Hc as [-> | ->]; reflexivity). rewrite E.
+    destruct (get_some prio d 0) as [root Hroot]; [lia|]. rewrite Hl, Hroot. apply Z.leb_le. apply cmpp_le.
+    apply (root_minimal prio cmpp cmpp_tp d root Hh Hroot). eapply HeapqArray.get_In. exact Hl.
+  - change ((3 - 1) / 2) with 1. destruct (get_some prio d 1) as [par Hpar]; [lia|]. rewrite Hl, Hpar.
+    apply Z.leb_le. apply cmpp_le. rewrite H5' in Hl. change (5 - 1) with 4 in Hl.
+    apply (Hh 1 ltac:(lia) 4 ltac:(right; reflexivity) par last Hpar Hl).
+Qed.
+
+Lemma settled_op_safe c l o top :
+  R2 c l -> (top = true -> top_last (store c)) ->
+  negb (hits l o) || top || (Z.of_nat (length l) <=? 5) = true -> op_safe c o = true.
+Proof.
+  intros (HO & _ & _ & Hlim) Htop Hs. destruct HO as (LI & [Hc Hh] & FR & RO).
+  assert (Hlen : len (data (access (store c))) = Z.of_nat (length l)).
+  { unfold len. rewrite (Permutation_length (rord_perm _ _ RO)). unfold ents. rewrite map_length. reflexivity. }
+  assert (Hkey : forall k, (find l k = None) \/ top = true \/ Z.of_nat (length l) <= 5 ->
+            match map_get K keqb (present (store c)) k with
+            | Some pos => rm_safe K V (data (access (store c))) pos
+            | None => true
+            end = true).
+  { intros k Hk. destruct (map_get K keqb (present (store c)) k) as [pos|] eqn:Hg; [|reflexivity].
+    pose proof (present_range _ _ _ LI Hg) as Hr.
+    destruct Hk as [F|[T|L5]].
+    - rewrite (find_l2 _ _ k LI RO) in F. apply (find_None_notin K V keqb keqb_spec) in F. rewrite keys_ents in F.
+      rewrite (lookup_notin K V keqb _ k LI F) in Hg. discriminate.
+    - exact (rm_safe_top _ _ (Htop T) Hr).
+    - apply rm_safe_small; [exact Hh|lia|exact Hr]. }
+  assert (Hsplit : forall b, negb b || top || (Z.of_nat (length l) <=? 5) = true ->
+            b = false \/ top = true \/ Z.of_nat (length l) <= 5).
+  { intros b H. apply orb_true_iff in H. destruct H as [H|H]; [|right; right; apply Z.leb_le; exact H].
+    apply orb_true_iff in H. destruct H as [H|H]; [left; destruct b; [discriminate|reflexivity]|right; left; exact H]. }
+  unfold CacheModel.op_safe. destruct o as [k v|k|k|k| | |]; try reflexivity; cbn [CacheSpec.hits] in Hs.
+  - rewrite Hlim. unfold put_refuse. destruct (sizeOf v >? lim); [reflexivity|].
+    apply Hkey. apply Hsplit in Hs. destruct Hs as [H|H]; [left; destruct (find l k); [discriminate|reflexivity]|right; exact H].
+  - apply Hkey. apply Hsplit in Hs. destruct Hs as [H|H]; [left; destruct (find l k); [discriminate|reflexivity]|right; exact H].
+  - apply Hkey. apply Hsplit in Hs. destruct Hs as [H|H]; [left; destruct (find l k); [discriminate|reflexivity]|right; exact H].
+Qed.
+
+Lemma settled_run_safe : pop_no_siftup hv = true ->
+  forall ops c l top, R2 c l -> (top = true -> top_last (store c)) -> settled top l ops = true -> run_safe c ops = true.
+Proof.
+  intro Hv. induction ops as [|o ops IH]; intros c l top R Htop Hs; [reflexivity|].
+  cbn [CacheSpec.settled] in Hs. apply andb_prop in Hs. destruct Hs as [Hs1 Hs2].
+  pose proof (settled_op_safe c l o top R Htop Hs1) as Hop.
+  cbn [CacheModel.run_safe]. rewrite Hop. cbn [andb].
+  destruct (step2 c l o R (or_intror (conj Hv Hop))) as (c' & HS & R' & Ht & Hn). rewrite HS.
+  apply (IH c' (fst (s2_step l o)) (match settles l o with Some b => b | None => top end) R'); [|exact Hs2].
+  destruct (settles l o) as [[|]|]; [intros _; exact (Ht eq_refl)|discriminate|].
+  intro T. rewrite (Hn eq_refl). exact (Htop T).
+Qed.
+
+(* every settled history, with a pop that never sifts up *)
+Theorem refines_S2_settled ops : pop_no_siftup hv = true ->
+  settled true [] ops = true ->
+  run_new K V keqb kzero vzero sizeOf hv lim ops = map ok_event (s2_run [] ops).
+Proof.
+  intros Hv Hs. apply (refines_S2_safe ops Hv).
+  unfold run_new_safe, cache_new, new_bad_limit. destruct (Z.leb_spec lim 0); [lia|].
+  apply (settled_run_safe Hv ops _ [] true R2_new); [|exact Hs].
+  intros _. apply top_last_nil. reflexivity.
 Qed.
 
 End S2.
